@@ -23,7 +23,11 @@ TRUSTED_BASE = [
 ]
 PARTIAL = ["max <= 1 for chebwin and taylor (and centre = 1 for chebwin) are evaluated by the oracle, not proved; kaiser (<= 1, > 0, centre = 1, first sample 1/I0(beta)) and the taylor centre are proved for the model's 60-term I0 series",
            "flat-top: the published coefficients sum to 1.000000003, so its bound is sum a_i (float check: 1 + 1e-8)"]
-ASSUMPTIONS = ["the ENBW comparison (Window.enbw, spectrum.enbw against N sum w^2 / (sum w)^2) is made for every N whenever sum(w) != 0 "
+ASSUMPTIONS = ["histories on a Window object: the caller never writes into the array returned by .data (it is the object's own "
+               "storage, handed out by reference); a compute_response request with a non-integer NFFT may raise whatever it raises; "
+               ".mean_square is read as a report of the samples (sum(w^2)/N of create_window's array, 1e-12 relative; the unchanged "
+               "library agrees exactly)",
+               "the ENBW comparison (Window.enbw, spectrum.enbw against N sum w^2 / (sum w)^2) is made for every N whenever sum(w) != 0 "
                "and the samples do not underflow when squared (max |w| > 1e-150; only kaiser(N <= 2, beta = 700) falls below); an "
                "all-zero window (hann(2), riesz(1)) has no ENBW (0/0) and the '>= 1' clause is stated for N >= 3",
                "values outside the documented set (tukey r outside [0, 1], flattop mode not symmetric/periodic) are refused with "
@@ -53,6 +57,14 @@ RULE = ("all 29 window names x N = 1..96 exhaustively (quick) / 1..512 (thorough
         "attenuation 120..250); N as numpy.int16 at 181..1000 (N*N beyond the type) for every name and as numpy.int32 at 46341 / "
         "46342 / 65536 (a sixth of the names; every name thorough); N = 65536, 65537, 131072 for 18 (name, parameter) pairs (thorough). "
         "Not generated (pending ruling, /tmp/finding_C20.py): 8-bit and unsigned numpy integers as N or as a parameter. "
+        "HISTORIES on one Window object (kind 'hist': every name x norm default / True / False, N in 1..600 and 2049 / 4096, default "
+        "and given shape parameters, names in other letter case, numpy-integer N, numpy-scalar parameters): 1..8 steps drawn from "
+        ".response, .frequencies, compute_response (NFFT 32..4096 incl. NFFT < N and numpy-integer NFFT, norm given or not), "
+        "a compute_response that fails, str(), info(), .mean_square, .enbw, .data re-reads, the caller overwriting the response "
+        "array, plot_frequencies / plot_window / plot_time_freq (Agg), shallow / deep / pickled copies and a second object of the "
+        "same request being used; after EVERY step .data must equal create_window(N, name, **kw) bit for bit, .N / .enbw / .name / "
+        ".norm be unchanged and every array handed out by an earlier .data read be unchanged; afterwards the factory and a new "
+        "object still give the same samples. "
         "non-trivial = N >= 3")
 
 
@@ -592,6 +604,322 @@ KINDS["alt"] = {"oracle": oracle_alt, "key": lambda p: "alt|%s|%d|%s|%s|%s|%s" %
                 "tags": lambda p: ["alt:" + p["what"]]}
 
 
+# ====================================================================================================================
+# HISTORIES on one Window object.  "The Window object reports the same samples, length and ENBW" is a statement about the object
+# for as long as it lives, not only right after construction: whatever has been asked of its frequency-domain side in between
+# (.response, .frequencies, compute_response with any NFFT / norm, str(), info(), the plotting methods, copies of the object, a
+# failing compute_response, the caller overwriting the response array it was given), in any order and repeated, `.data` is
+# still create_window(N, name, **kw) bit for bit, `.N` and `.enbw` are what they were, `.name` / `.norm` are as given, and an array
+# obtained from an earlier `.data` read has not been rescaled behind the caller's back.
+# A step is [what, args]; params["steps"] is the whole history (JSON: replayable).
+
+def _agg():
+    import os
+    os.environ.setdefault("MPLBACKEND", "Agg")
+    import matplotlib
+    if "agg" not in matplotlib.get_backend().lower():
+        matplotlib.use("Agg", force=True)
+    import pylab
+    return pylab
+
+
+def _hist_step(W, w, what, a, N, name, kw, st):
+    """perform one step of a history on the Window `w`; returns a failure text or None.  `st` holds what the caller keeps
+    between steps (arrays it was handed)."""
+    import contextlib
+    import copy
+    import io
+    import pickle
+    if what == "response":
+        r = w.response
+        if not isinstance(r, np.ndarray) or r.ndim != 1 or r.size < 1:
+            return "response is not a one-dimensional array"
+        st["resp"] = r
+    elif what == "frequencies":
+        f = w.frequencies
+        if len(f) != len(w.response):
+            return "frequencies has %d entries, response %d" % (len(f), len(w.response))
+    elif what == "compute_response":
+        args = dict(a)
+        if "NFFT" in args and args.get("nfft_type"):
+            args["NFFT"] = NTYPES[args.pop("nfft_type")](args["NFFT"])
+        args.pop("nfft_type", None)
+        w.compute_response(**args)
+        want = args.get("NFFT", 2048)
+        if want < N:
+            want = 2 * N
+        if len(w.response) != want:
+            return "compute_response(**%r) leaves a response of %d bins, not %d" % (a, len(w.response), want)
+    elif what == "compute_response_bad":
+        # a request that cannot be computed (NFFT that is not an integer): whatever it raises, the object is as it was
+        try:
+            w.compute_response(**a)
+        except Exception:
+            pass
+    elif what == "str":
+        s = str(w)
+        if ("Length: %s" % N) not in s or name not in s:
+            return "str(w) does not report the name and the length: %r" % s
+    elif what == "info":
+        buf = io.StringIO()
+        with contextlib.redirect_stdout(buf):
+            w.info()
+        if ("Length: %s" % N) not in buf.getvalue():
+            return "info() does not print the length: %r" % buf.getvalue()
+    elif what == "mean_square":
+        ms = float(w.mean_square)
+        ref = float(np.sum(st["ref"] ** 2) / N)
+        # (the unchanged library evaluates this very expression on its samples: difference 0 observed over quick seeds 0..4 and
+        # a thorough run; 1e-12 relative allows another summation order)
+        if not abs(ms - ref) <= 1e-12 * abs(ref):
+            return "mean_square = %r, the samples of create_window give sum(w^2)/N = %r" % (ms, ref)
+    elif what == "enbw":
+        w.enbw
+    elif what == "data":
+        st["held"].append((w.data, np.array(w.data, copy=True)))
+    elif what == "scribble-response":
+        # the caller post-processes the response array it was given, in place
+        r = w.response
+        if isinstance(r, np.ndarray) and r.flags.writeable:
+            r[...] = np.nan
+    elif what in ("plot_frequencies", "plot_window", "plot_time_freq"):
+        pylab = _agg()
+        try:
+            pylab.figure()
+            getattr(w, what)(**a)
+        finally:
+            pylab.close("all")
+    elif what in ("copy", "deepcopy", "pickle"):
+        # a copy of the object is used; the original is as it was (a shallow copy shares the sample array with the original)
+        o = copy.copy(w) if what == "copy" else copy.deepcopy(w) if what == "deepcopy" else pickle.loads(pickle.dumps(w))
+        o.compute_response(**a)
+        o.response, o.frequencies, str(o)
+        if o.N != N or not np.array_equal(np.asarray(o.data), st["ref"]):
+            return "a %s of the object does not report the samples of create_window after its response was computed" % what
+    elif what == "other":
+        # another object for the same request, constructed and used while this one is alive
+        o = W.Window(st["Nl"], name, **kw)
+        o.response, str(o)
+        o.compute_response(**a)
+        if o.N != N or not np.array_equal(np.asarray(o.data), st["ref"]):
+            return "a second Window for the same request does not report the samples of create_window after its response was computed"
+    else:
+        raise ValueError("unknown step %r" % (what,))
+    return None
+
+
+def oracle_hist(p):
+    import warnings
+    W = _W()
+    N, name = p["N"], p["name"]
+    kw = _kw(p)
+    Nl = _N(p)
+    okw = dict(kw)
+    if "norm" in p:
+        okw["norm"] = p["norm"]
+    tag = "Window(%s%d, %r%s)" % ((p["ntype"] + ":") if p.get("ntype") else "", N, name, "".join(", %s=%r" % kv for kv in okw.items()))
+    out = []
+    with warnings.catch_warnings(), np.errstate(all="ignore"):
+        warnings.simplefilter("ignore")
+        try:
+            ref = np.array(W.create_window(Nl, name, **kw), dtype=float, copy=True)
+            w = W.Window(Nl, name, **okw)
+        except Exception as e:
+            return ["%s raised %r" % (tag, e)]
+        e0 = w.enbw
+        first = w.data                       # the array a caller gets from a read right after construction ...
+        snap = np.array(first, copy=True)    # ... and its values at that time
+        st = {"ref": ref, "held": [(first, snap)], "Nl": Nl}
+
+        def state(after):
+            f = []
+            d = np.asarray(w.data)
+            if w.N != N or d.shape != (N,):
+                f.append("%s after %s: N = %r, %d samples; constructed with N = %d" % (tag, after, w.N, d.size, N))
+            elif not np.array_equal(d, ref):
+                j = int(np.argmax(~(d == ref)))
+                f.append("%s after %s: .data differs from create_window(N, name, **kw): sample %d is %r, not %r (max |diff| = %.3e)" % (
+                    tag, after, j, float(d[j]), float(ref[j]), float(np.nanmax(np.abs(d - ref)))))
+            e1 = w.enbw
+            if not (e1 == e0 or (e1 != e1 and e0 != e0)):
+                f.append("%s after %s: .enbw = %r, it was %r after construction" % (tag, after, e1, e0))
+            for k, (arr, val) in enumerate(st["held"]):
+                if not np.array_equal(arr, val, equal_nan=True):
+                    f.append("%s after %s: the array returned by an earlier .data read (read %d) has changed in the caller's hands "
+                             "(max |diff| = %.3e)" % (tag, after, k, float(np.nanmax(np.abs(arr - val)))))
+                    st["held"][k] = (arr, np.array(arr, copy=True))      # reported once
+            if w.name != name:
+                f.append("%s after %s: .name = %r" % (tag, after, w.name))
+            want_norm = p["norm"] if "norm" in p else True
+            if w.norm is not want_norm:
+                f.append("%s after %s: .norm = %r" % (tag, after, w.norm))
+            return f
+
+        out += state("construction")
+        s0 = float(np.sum(ref))
+        if s0 != 0 and float(np.max(np.abs(ref))) > 1e-150:
+            e = N * float(np.sum(ref ** 2)) / s0 ** 2
+            if not abs(e0 - e) <= 1e-9 * abs(e):
+                out.append("%s.enbw = %r differs from N*sum(w^2)/sum(w)^2 = %r" % (tag, e0, e))
+        done = []
+        for what, a in p["steps"]:
+            done.append(what if not a else "%s(%s)" % (what, ", ".join("%s=%r" % kv for kv in sorted(a.items()))))
+            after = " -> ".join(done)
+            try:
+                msg = _hist_step(W, w, what, dict(a), N, name, kw, st)
+            except Exception as ex:
+                out.append("%s: step %s raised %s: %s" % (tag, after, type(ex).__name__, str(ex)[:160]))
+                break
+            if msg:
+                out.append("%s after %s: %s" % (tag, after, msg))
+            f = state(after)
+            out += f
+            if f or msg:
+                break                        # the first step that breaks the object is the report
+        # nothing process-wide was left behind: the factory still gives the same window, a new object the same samples
+        try:
+            again = np.asarray(W.create_window(Nl, name, **kw))
+            fresh = W.Window(Nl, name, **okw)
+            if again.shape != ref.shape or not np.array_equal(again, ref):
+                out.append("create_window for the request of %s gives a different array after the history %s" % (tag, " -> ".join(done)))
+            if not np.array_equal(np.asarray(fresh.data), ref) or not (fresh.enbw == e0 or (fresh.enbw != fresh.enbw and e0 != e0)):
+                out.append("a new %s constructed after the history %s reports other samples / ENBW" % (tag, " -> ".join(done)))
+        except Exception as ex:
+            out.append("%s constructed again after the history raised %r" % (tag, ex))
+    return out
+
+
+def _hist_key(p):
+    import json
+    return "hist|%s|%s|%s|%s" % (_key(p), p.get("norm", "default"), len(p["steps"]), json.dumps(p["steps"], sort_keys=True)[:300])
+
+
+def _hist_tags(p):
+    t = ["history:Window", "history:norm=" + str(p.get("norm", "default")), "history:win:" + p["name"].lower(),
+         "history:steps:%s" % ("1" if len(p["steps"]) == 1 else "2-4" if len(p["steps"]) <= 4 else ">=5"),
+         "history:params:" + ("given" if p["kw"] else "default")]
+    t += sorted(set("history:step:" + s[0] for s in p["steps"]))
+    if p.get("ntype"):
+        t.append("history:N:numpy-integer")
+    if p.get("ptype"):
+        t.append("history:params:numpy-scalar")
+    if p["N"] > 2048:
+        t.append("history:N>2048")
+    return t
+
+
+KINDS["hist"] = {"oracle": oracle_hist, "key": _hist_key, "tags": _hist_tags, "nontrivial": lambda p: p["N"] >= 3}
+
+# shape parameters used by the histories (documented ranges; Taylor inside the range where the design is a taper)
+HIST_KW = {"kaiser": [{"beta": 3.0}, {"beta": 14}, {"beta": 0.0}], "gaussian": [{"alpha": 1.5}, {"alpha": 4}],
+           "tukey": [{"r": 0.25}, {"r": 1.0}, {"r": 0.0}], "chebwin": [{"attenuation": 80}, {"attenuation": 52.5}],
+           "taylor": [{"nbar": 5, "sll": -40}, {"nbar": 6}, {"sll": -35.0}], "poisson": [{"alpha": 3}, {"alpha": 0.5}],
+           "poisson_hanning": [{"alpha": 1.5}], "cauchy": [{"alpha": 4}, {"alpha": 0.0}], "blackman": [{"alpha": 0.2}, {"alpha": 0}],
+           "flattop": [{"mode": "periodic"}, {"mode": "symmetric"}]}
+
+
+def _gen_hist(nrng, tier, names):
+    """histories on Window objects: every name x norm default / True / False x several N x default and given shape
+    parameters; steps drawn from every way of using the frequency-domain side, in random order, with repeats"""
+    thorough = tier == "thorough"
+
+    def ri(n):
+        return int(nrng.integers(0, n))
+
+    def cr_args():
+        a = {}
+        k = ri(8)
+        if k:
+            a["NFFT"] = [32, 64, 100, 255, 256, 1024, 4096, 2048][k]
+            if ri(6) == 0:
+                a["nfft_type"] = ("int64", "int32", "int16")[ri(3)]
+        k = ri(4)
+        if k < 2:
+            a["norm"] = bool(k)
+        return a
+
+    def plot_args(what):
+        if what == "plot_window":
+            return {}
+        a = {}
+        if ri(3) == 0:
+            a["norm"] = bool(ri(2))
+        if ri(3) == 0:
+            a["mindB"] = -float(ri(150) + 20)
+        if what == "plot_time_freq" and ri(3) == 0:
+            a["yaxis_label_position"] = "right"
+        return a
+
+    def step(plots):
+        k = ri(20 if plots else 17)
+        if k < 4:
+            return ["compute_response", cr_args()]
+        if k < 13:
+            return [("response", "frequencies", "str", "info", "mean_square", "enbw", "data", "response", "frequencies")[k - 4], {}]
+        if k == 13:
+            return ["scribble-response", {}]
+        if k == 14:
+            return ["compute_response_bad", {"NFFT": (100.5, "2048", None)[ri(3)]}]
+        if k == 15:
+            return [("copy", "deepcopy", "pickle")[ri(3)], cr_args()]
+        if k == 16:
+            return ["other", cr_args()]
+        what = ("plot_frequencies", "plot_window", "plot_time_freq")[k - 17]
+        return [what, plot_args(what)]
+
+    def case(name, N, kw, norm, steps, ntype=None, ptype=None):
+        q = {"name": name, "N": N, "kw": dict(kw), "steps": steps}
+        if norm is not None:
+            q["norm"] = norm
+        if ntype:
+            q["ntype"] = ntype
+        if ptype:
+            q["ptype"] = ptype
+        return ("hist", q)
+
+    # --- the single ways of reaching the frequency side, each as a one/two-step history, in turn over the names
+    singles = [[["response", {}]], [["frequencies", {}]], [["str", {}]], [["info", {}]], [["compute_response", {}]],
+               [["compute_response", {"NFFT": 32}]], [["compute_response", {"NFFT": 4096, "norm": True}]],
+               [["compute_response", {"norm": True}]], [["plot_frequencies", {}]], [["plot_time_freq", {}]],
+               [["copy", {}]], [["mean_square", {}], ["response", {}], ["mean_square", {}]],
+               [["data", {}], ["frequencies", {}]], [["compute_response", {"norm": False}], ["response", {}], ["str", {}]],
+               [["compute_response_bad", {"NFFT": 100.5}]], [["other", {}]], [["plot_frequencies", {"norm": False}], ["plot_frequencies", {}]]]
+    Ns = [7, 64, 65, 8, 33, 3, 2, 1, 128, 513]
+    c = 0
+    for j, name in enumerate(names):
+        for norm in (None, True, False):
+            c += 1
+            yield case(name, Ns[(j + c) % len(Ns)], {}, norm, singles[c % len(singles)])
+    # --- random histories: every name, norm default / True / False, N fixed and random, with and without shape parameters
+    rounds = 2 if not thorough else 10
+    for rnd in range(rounds):
+        for j, name in enumerate(names):
+            for norm in (None, True, False):
+                c += 1
+                N = Ns[(c + rnd) % len(Ns)] if c % 2 else int(nrng.integers(1, 600))
+                kw = {}
+                if name in HIST_KW and (c + j) % 3 != 0:
+                    kw = HIST_KW[name][ri(len(HIST_KW[name]))]
+                plots = (c % 4 == 0)
+                steps = [step(plots) for _ in range(2 + ri(7))]
+                nm = name if c % 7 else (name.upper() if c % 2 else name.title())     # the name is not case sensitive
+                ntype = ("int64", "int32", "int16", "uint16")[ri(4)] if c % 9 == 0 else None
+                ptype = None
+                if kw and c % 5 == 0:
+                    k0 = sorted(kw)[0]
+                    if not isinstance(kw[k0], str):
+                        ptype = {k0: "int64" if isinstance(kw[k0], int) else "float64"}
+                yield case(nm, N, kw, norm, steps, ntype=ntype, ptype=ptype)
+    # --- records longer than the default grid (NFFT < N: the response is computed on 2 N bins)
+    for j, (name, kw) in enumerate((("hamming", {}), ("kaiser", {"beta": 8.6}), ("hann", {}), ("chebwin", {}), ("taylor", {}),
+                                    ("blackman_harris", {}), ("tukey", {"r": 0.5}), ("lanczos", {}))):
+        if not thorough and j >= 3:
+            break
+        for N in (2049, 4096) + ((2048, 5000) if thorough else ()):
+            yield case(name, N, kw, (None, False, True)[(j + N) % 3], [step(False) for _ in range(2 + ri(4))] + [["response", {}]])
+
+
+
 def gen(rng, nrng, tier):
     W = _W()
     for N in (1, 2, 3, 8, 9, 64, 65):
@@ -826,3 +1154,6 @@ def gen(rng, nrng, tier):
                 if (j + N) % 3 == 0:
                     q["ntype"] = ("int64", "int32")[j % 2]
                 yield ("win", q)
+    # --- histories on one Window object (see oracle_hist)
+    for cs in _gen_hist(nrng, tier, names):
+        yield cs
